@@ -238,7 +238,15 @@ fn near_copy(r: &mut Rng, v: &Value) -> Value {
         }
         Value::String(s) => {
             let mut t = s.as_str().to_string();
-            match r.below(4) {
+            match r.below(5) {
+                4 if t.chars().any(|c| c.is_ascii_alphabetic()) => {
+                    // the same text up to the case of one ASCII letter
+                    let at: Vec<usize> = t.char_indices().filter(|(_, c)| c.is_ascii_alphabetic()).map(|(i, _)| i).collect();
+                    let i = at[r.below(at.len())];
+                    let c = t[i..].chars().next().unwrap();
+                    let flipped = if c.is_ascii_lowercase() { c.to_ascii_uppercase() } else { c.to_ascii_lowercase() };
+                    t.replace_range(i..i + 1, &flipped.to_string());
+                }
                 0 => t.push('\u{10000}'),
                 1 => t.push('\u{ffff}'),
                 2 => {
@@ -250,7 +258,23 @@ fn near_copy(r: &mut Rng, v: &Value) -> Value {
         }
         Value::Number(n) => {
             let mut t = n.as_str().to_string();
-            t.push('0');
+            // another spelling of the same quantity is another value: the case of the exponent marker, an
+            // explicit sign or zero in the exponent, a fraction of zero, an exponent of zero
+            match r.below(6) {
+                0 | 1 if t.contains(['e', 'E']) => {
+                    t = if r.chance(2, 3) {
+                        t.chars().map(|c| if c == 'e' { 'E' } else if c == 'E' { 'e' } else { c }).collect()
+                    } else if t.contains("e+") || t.contains("E+") {
+                        t.replace('+', "")
+                    } else {
+                        t.replace('e', "e0").replace('E', "E0")
+                    };
+                }
+                0 => t.push_str("e0"),
+                1 => t.push_str("E0"),
+                2 if !t.contains(['.', 'e', 'E']) => t.push_str(".0"),
+                _ => t.push('0'),
+            }
             match json_syntax::NumberBuf::new(t.into_bytes().into()) {
                 Ok(m) if r.chance(1, 2) => Value::Number(m),
                 _ => Value::Number(9u32.into()),
@@ -278,6 +302,7 @@ pub fn generate(args: &Args, out: &mut Out) {
         "[ ]", "[ n ]", "[ n n ]", "[ [ ] ]", "{ }", "{ $61 n }", "{ $61 t }", "{ $62 n }", "{ $61 n $61 n }",
         "{ $e000 n }", "{ $10000 n }", "{ $61 { $62 n $63 n } }", "{ $61 { $62 n } $63 n }", "{ $61 { } $62 n }", "{ $61 { $62 n } }", "[ [ n n ] ]", "[ [ n ] n ]",
         "{ $39 n }", "{ $31,30 n }", "{ $31,61 n }", "$39", "$31,30", "$31,61", "#39",
+        "#31,65,35", "#31,45,35", "#31,65,2b,35", "$41", "{ $41 n }", "[ #31,45,35 ]",
     ];
     let lim = if full { small.len() } else { 16 };
     for a in &small[..small.len()] {
